@@ -18,6 +18,19 @@ Definition status_sound (st : pstatus) (r : res bool) : Prop :=
   | SOut => False                 (* outside the model: excluded *)
   end.
 
+(* the part of it the decision / determining views rely on: a policy recorded as false or
+   errored is simply not satisfied *)
+Definition status_weak (st : pstatus) (r : res bool) : Prop :=
+  match st with
+  | SSat => r = Ok true
+  | SFalse | SErr _ => r <> Ok true
+  | SRes _ => True
+  | SOut => False
+  end.
+
+Lemma status_sound_weak st r : status_sound st r -> status_weak st r.
+Proof. destruct st; cbn; auto; [congruence | intros [e0 H]; congruence]. Qed.
+
 Section Views.
   Variable pstat : policy -> pstatus.
   Variable evalp : policy -> res bool.
@@ -52,11 +65,13 @@ Section Views.
       apply filter_In. split; [exact (in_map item_of ps p Hp) | exact Hf].
   Qed.
 
-  Hypothesis sound : forall p, status_sound (pstat p) (evalp p).
+  Variable ps : list policy.
+  Hypothesis sound : forall p, In p ps -> status_weak (pstat p) (evalp p).
 
-  Ltac st p := let H := fresh "S" in pose proof (sound p) as H; unfold status_sound in H.
+  Ltac st p := let H := fresh "S" in
+               match goal with Hp : In p ps |- _ => pose proof (sound p Hp) as H; unfold status_weak in H end.
 
-  Lemma sat_forbid_of_partial ps :
+  Lemma sat_forbid_of_partial :
     any_where (fun i => is_sat i && is_forbid i) (pitems_with pstat ps) = true -> sat_forbid evalp ps.
   Proof.
     intros H. apply any_where_true in H. destruct H as [p [Hp Hf]]. exists p. st p.
@@ -64,7 +79,7 @@ Section Views.
     destruct (pstat p); try discriminate. destruct (peffect p); try discriminate. auto.
   Qed.
 
-  Lemma sat_permit_of_partial ps :
+  Lemma sat_permit_of_partial :
     any_where (fun i => is_sat i && is_permit i) (pitems_with pstat ps) = true -> sat_permit evalp ps.
   Proof.
     intros H. apply any_where_true in H. destruct H as [p [Hp Hf]]. exists p. st p.
@@ -72,7 +87,7 @@ Section Views.
     destruct (pstat p); try discriminate. destruct (peffect p); try discriminate. auto.
   Qed.
 
-  Lemma no_sat_forbid ps :
+  Lemma no_sat_forbid :
     any_where (fun i => is_sat i && is_forbid i) (pitems_with pstat ps) = false ->
     any_where (fun i => is_res i && is_forbid i) (pitems_with pstat ps) = false ->
     ~ sat_forbid evalp ps.
@@ -80,10 +95,10 @@ Section Views.
     intros H1 H2 [p [Hp [He Hv]]].
     rewrite any_where_false in H1, H2. specialize (H1 p Hp). specialize (H2 p Hp). st p.
     unfold is_sat, is_res, is_forbid, is_permit, item_of in *; cbn in *. rewrite He in *.
-    destruct (pstat p); cbn in *; try discriminate; try congruence; try (destruct S as [e0 S]; congruence); try contradiction.
+    destruct (pstat p); cbn in *; try discriminate; try congruence; try contradiction.
   Qed.
 
-  Lemma no_sat_permit ps :
+  Lemma no_sat_permit :
     any_where (fun i => is_sat i && is_permit i) (pitems_with pstat ps) = false ->
     any_where (fun i => is_res i && is_permit i) (pitems_with pstat ps) = false ->
     ~ sat_permit evalp ps.
@@ -91,11 +106,11 @@ Section Views.
     intros H1 H2 [p [Hp [He Hv]]].
     rewrite any_where_false in H1, H2. specialize (H1 p Hp). specialize (H2 p Hp). st p.
     unfold is_sat, is_res, is_permit, item_of in *; cbn in *. rewrite He in *.
-    destruct (pstat p); cbn in *; try discriminate; try congruence; try (destruct S as [e0 S]; congruence); try contradiction.
+    destruct (pstat p); cbn in *; try discriminate; try congruence; try contradiction.
   Qed.
 
   (* a definite partial decision is the decision under the concrete outcomes *)
-  Theorem decision_sound ps d :
+  Theorem decision_sound d :
     pdecision (pitems_with pstat ps) = Some d -> rdecision (authorize_with evalp ps) = d.
   Proof.
     unfold pdecision. intros H.
@@ -113,7 +128,7 @@ Section Views.
   Qed.
 
   (* must_be_determining ⊆ actual determining policies *)
-  Theorem must_sound ps i :
+  Theorem must_sound i :
     In i (must_be_determining (pitems_with pstat ps)) -> In i (rreasons (authorize_with evalp ps)).
   Proof.
     unfold must_be_determining. intros H. apply reasons_iff.
@@ -133,7 +148,7 @@ Section Views.
   Qed.
 
   (* actual determining policies ⊆ may_be_determining *)
-  Theorem may_sound ps i :
+  Theorem may_sound i :
     In i (rreasons (authorize_with evalp ps)) -> In i (may_be_determining (pitems_with pstat ps)).
   Proof.
     intros H. apply reasons_iff in H. unfold may_be_determining.
@@ -141,25 +156,35 @@ Section Views.
     - destruct H as [[_ [p [Hp [E [He Hv]]]]] | [N _]].
       + apply in_ids_where. exists p. split; [exact Hp|]. split; [exact E|]. st p.
         unfold is_sat, is_res, is_forbid, is_permit, item_of; cbn. rewrite He.
-        destruct (pstat p); cbn; try reflexivity; try congruence; try (destruct S as [e0 S]; congruence); try contradiction.
+        destruct (pstat p); cbn; try reflexivity; try congruence; try contradiction.
       + exfalso. apply N. apply sat_forbid_of_partial; exact SF.
     - destruct H as [[_ [p [Hp [E [He Hv]]]]] | [_ [p [Hp [E [He Hv]]]]]];
         apply in_ids_where; exists p; (split; [exact Hp|]); (split; [exact E|]); st p.
       + rewrite any_where_false in SF. specialize (SF p Hp).
         unfold is_sat, is_res, is_forbid, is_permit, item_of in *; cbn in *. rewrite He in *.
-        destruct (pstat p); cbn in *; try reflexivity; try congruence; try (destruct S as [e0 S]; congruence); try contradiction.
+        destruct (pstat p); cbn in *; try reflexivity; try congruence; try contradiction.
       + unfold is_sat, is_res, is_permit, item_of; cbn. rewrite He.
-        destruct (pstat p); cbn; try reflexivity; try congruence; try (destruct S as [e0 S]; congruence); try contradiction.
+        destruct (pstat p); cbn; try reflexivity; try congruence; try contradiction.
   Qed.
 
-  Theorem satisfied_sound ps i :
+End Views.
+
+Section Views2.
+  Variable pstat : policy -> pstatus.
+  Variable evalp : policy -> res bool.
+  Variable ps : list policy.
+  Hypothesis sound : forall p, In p ps -> status_sound (pstat p) (evalp p).
+  Ltac st p := let H := fresh "S" in
+               match goal with Hp : In p ps |- _ => pose proof (sound p Hp) as H; unfold status_sound in H end.
+
+  Theorem satisfied_sound i :
     In i (definitely_satisfied (pitems_with pstat ps)) -> exists p, In p ps /\ pid p = i /\ evalp p = Ok true.
   Proof.
     intros H. apply in_ids_where in H. destruct H as [p [Hp [E Hf]]]. exists p. st p.
     unfold is_sat, item_of in Hf; cbn in Hf. destruct (pstat p); try discriminate. auto.
   Qed.
 
-  Theorem errored_sound ps i :
+  Theorem errored_sound i :
     In i (definitely_errored (pitems_with pstat ps)) -> exists p e, In p ps /\ pid p = i /\ evalp p = Err e.
   Proof.
     intros H. apply in_ids_where in H. destruct H as [p [Hp [E Hf]]]. st p.
@@ -167,10 +192,10 @@ Section Views.
     destruct S as [e' S]. exists p, e'. auto.
   Qed.
 
-  Theorem false_sound ps i :
+  Theorem false_sound i :
     In i (trivially_false (pitems_with pstat ps)) -> exists p, In p ps /\ pid p = i /\ evalp p = Ok false.
   Proof.
     intros H. apply in_ids_where in H. destruct H as [p [Hp [E Hf]]]. exists p. st p.
     unfold is_false, item_of in Hf; cbn in Hf. destruct (pstat p); try discriminate. auto.
   Qed.
-End Views.
+End Views2.
